@@ -249,7 +249,7 @@ def judge_concrete(contract, rep, pre, ca):
     E.axioms = list(rep.axioms)
     E.concrete = True
     order = [p for p in param_order(rep.fn) if p in ca]
-    args_tree = {k: tree(v, pre) for k, v in ca.items()}
+    args_tree = {k: tree(v, pre) for k, v in ca.items() if not k.startswith('__')}      # '__x' = ghost arguments
     out = run_real(contract.target, args_tree, order, 'gen' if getattr(contract, 'generator', False) else 'call')
     post = pre.copy()
     for cid, t in out['heap'].items():
